@@ -489,18 +489,20 @@ impl FieldParser {
         }
         let record_count = input.len().saturating_div(total_size);
 
-        let (remaining, fields) = (0..record_count).fold(
-            (input, Vec::new()), // Initial accumulator: (fields, remaining)
-            |(remaining, mut fields), _| {
-                let (new_remaining, data_field) =
-                    match Self::parse_data_field(remaining, template.clone()) {
-                        Ok((remaining, data_field)) => (remaining, data_field),
-                        Err(_) => return (remaining, fields),
-                    };
-                fields.push(data_field);
-                (new_remaining, fields)
-            },
-        );
+        let mut remaining = input;
+        let mut fields = Vec::new();
+        for _ in 0..record_count {
+            // A record that does not decode leaves `remaining` where it was, so every further
+            // attempt would fail in the same way: stop instead of retrying (and cloning the
+            // template) once per remaining iteration.
+            match Self::parse_data_field(remaining, template.clone()) {
+                Ok((new_remaining, data_field)) => {
+                    remaining = new_remaining;
+                    fields.push(data_field);
+                }
+                Err(_) => break,
+            }
+        }
 
         Ok((remaining, fields))
     }
